@@ -99,6 +99,7 @@ package check
 
 //@ func (*AllProject).HandleFileEventChanges
 //@   props C08
+//@   unchecked pre:ReanalyseReferInfo.r0#0 the file index is created with the project and the reference list of a first-pass result holds the records CreateReferenceFileResult made (non-nil); neither fact is available here (the result comes out of the file table) - the same entry assumption the C18 run lists
 //@   loop range:fileEventVec step [created-or-changed-file-is-reparsed] (fileEvents.Type == FileEventCreated || fileEvents.Type == FileEventChanged)
 //@        ==> len(needAgainFileVec) == prev(len(needAgainFileVec)) + 1 && streq(needAgainFileVec[len(needAgainFileVec) - 1], strFile)
 //@   loop range:fileEventVec step [created-file-enters-file-table-and-index] fileEvents.Type == FileEventCreated
